@@ -158,8 +158,10 @@ func getOctoSQLValue(t octosql.Type, value *fastjson.Value) (out octosql.Value, 
 	switch t.TypeID {
 	case octosql.TypeIDFloat:
 		if value.Type() == fastjson.TypeNumber {
-			v, _ := value.Float64()
-			return octosql.NewFloat(v), true
+			// The tokenizer accepts any run of number characters, only the conversion validates it.
+			if v, err := value.Float64(); err == nil {
+				return octosql.NewFloat(v), true
+			}
 		}
 	case octosql.TypeIDBoolean:
 		if value.Type() == fastjson.TypeTrue {
